@@ -534,3 +534,168 @@ func c12KeptUnlessExcluded(c *Ctx, pk *packages.Package) {
 		c.Fail(rule, "anchor", token.NoPos, "no loop over image.Files() adding whole files to the closure found")
 	}
 }
+
+// ---- C19 (after round-6 seeds C19-q, C19-r) ------------------------------------------------------------------------
+
+// c19NoHeaderForwarding (HEADER-WRITER, redirects and bulk copies; C19): the Authorization header is attached by the
+// interceptor for the host the client was made for, and net/http drops it when a redirect leaves that host. Two
+// things would undo that: a redirect policy of our own (http.Client.CheckRedirect), and copying one request's headers
+// onto another wholesale (a store into a Header map under a key that is not a constant). In the module's HTTP
+// transport and client-building packages neither occurs.
+func c19NoHeaderForwarding(c *Ctx) {
+	const rule = "HEADER-WRITER"
+	p := c.P
+	var pkgs []*packages.Package
+	for _, pk := range p.ModulePkgs() {
+		rel := relPkg(pk.PkgPath)
+		if strings.HasPrefix(rel, "private/pkg/transport/http") || rel == "private/pkg/connectclient" || rel == "private/bufpkg/bufconnect" || rel == "private/buf/bufcli" || rel == "private/bufpkg/buftransport" {
+			pkgs = append(pkgs, pk)
+		}
+	}
+	var redirect, bulk []string
+	for _, sf := range p.SSAFuncsOf(pkgs) {
+		for _, f := range allSSAFuncs(sf) {
+			for _, b := range f.Blocks {
+				for _, ins := range b.Instrs {
+					switch t := ins.(type) {
+					case *ssa.Store:
+						if fa, ok := t.Addr.(*ssa.FieldAddr); ok && fieldName(fa.X.Type(), fa.Field) == "net/http.Client.CheckRedirect" {
+							redirect = append(redirect, ssaFuncName(f))
+						}
+					case *ssa.MapUpdate:
+						if namedPath(t.Map.Type()) == "net/http.Header" {
+							if _, isConst := stripConv(t.Key).(*ssa.Const); !isConst {
+								bulk = append(bulk, ssaFuncName(f))
+							}
+						}
+					}
+				}
+			}
+		}
+	}
+	c.Ob(rule, "transport/no-own-redirect-policy", token.NoPos, len(redirect) == 0, len(pkgs) > 0, "no http.Client of the transport packages sets CheckRedirect (net/http's default drops Authorization when a redirect leaves the host): %v", uniq(redirect))
+	c.Ob(rule, "transport/no-bulk-header-copy", token.NoPos, len(bulk) == 0, len(pkgs) > 0, "no store into an http.Header under a computed key (headers copied from another request): %v", uniq(bulk))
+}
+
+// c19OneNetrcFile (NETRC-LOOKUP, one file; C19): "the .netrc machine for that host (or its default entry)" is a lookup
+// in the netrc file in force - $NETRC when set, the home file otherwise - and in no other: an empty $NETRC is how one
+// switches netrc credentials off. The function that resolves the file and looks the machine up performs exactly one
+// lookup on every path.
+func c19OneNetrcFile(c *Ctx) {
+	const rule = "NETRC-LOOKUP"
+	p := c.P
+	fr := p.Func("private/pkg/netrc", "GetMachineForName")
+	if fr == nil || fr.Obj == nil {
+		c.Fail(rule, "GetMachineForName", token.NoPos, "not found")
+		return
+	}
+	sf := p.SSAFunc(fr.Obj)
+	var lookups []*ssa.BasicBlock
+	for _, call := range callsIn(sf) {
+		if o := staticCalleeObj(call.Call); o != nil && o.Name() == "GetMachineForNameAndFilePath" {
+			lookups = append(lookups, call.Instr.Block())
+		}
+	}
+	// two lookups are fine only if they are alternatives (neither reaches the other)
+	chained := false
+	for i, a := range lookups {
+		for j, b := range lookups {
+			if i != j && blockReaches(a, b) {
+				chained = true
+			}
+		}
+	}
+	c.Ob(rule, "GetMachineForName/one-file", fr.Decl.Pos(), len(lookups) >= 1 && !chained, true, "%d lookup(s) by file; one is tried after another: %v", len(lookups), chained)
+}
+
+// ---- C20 (after round-6 seeds C20-p, C20-r) ------------------------------------------------------------------------
+
+// c20AccessorsPlain (ACCESSORS-PLAIN): the printers of the five formats read an annotation partly through its accessors
+// (json, msvs, github-actions) and partly through the members themselves (String(), which the text and junit formats
+// use). They agree because an accessor is a plain read of its member. Every argument-less accessor of the annotation
+// type returns a member of the receiver as it is - no call in between.
+func c20AccessorsPlain(c *Ctx) {
+	const rule = "ACCESSORS-PLAIN"
+	c.Rule(rule, "the accessors of a file annotation return the stored member unchanged", 4)
+	p := c.P
+	pk := p.Pkg("private/bufpkg/bufanalysis")
+	if pk == nil {
+		c.Fail(rule, "anchor", token.NoPos, "bufanalysis not found")
+		return
+	}
+	for _, sf := range p.SSAFuncsOf([]*packages.Package{pk}) {
+		if sf.Signature.Recv() == nil || !strings.HasSuffix(namedPath(derefType(sf.Signature.Recv().Type())), "bufanalysis.fileAnnotation") {
+			continue
+		}
+		if sf.Signature.Params().Len() != 0 || sf.Signature.Results().Len() != 1 || sf.Name() == "String" || strings.HasPrefix(sf.Name(), "is") {
+			continue
+		}
+		plain := true
+		for _, r := range returnsOf(sf) {
+			v := stripConv(r.Results[0])
+			if mi, ok := v.(*ssa.MakeInterface); ok {
+				v = stripConv(mi.X)
+			}
+			u, ok := v.(*ssa.UnOp)
+			if !ok || u.Op != token.MUL {
+				plain = false
+				continue
+			}
+			if fa, ok := u.X.(*ssa.FieldAddr); !ok || stripConv(fa.X) != ssa.Value(sf.Params[0]) {
+				plain = false
+			}
+		}
+		c.Ob(rule, ssaFuncName(sf)+"/plain", sf.Pos(), plain, true, "%s returns a member of the receiver as stored: %v", sf.Name(), plain)
+	}
+}
+
+// c20ClampByConstantOnly (POSITION-CLAMPED, independent components): positions are made printable by clamping each
+// component against a constant (`atLeast1`), the same way in every format. A component is never clamped against
+// another component: a range that ends on a later line may well end in an earlier column.
+func c20ClampByConstantOnly(c *Ctx) {
+	const rule = "POSITION-CLAMPED"
+	p := c.P
+	pk := p.Pkg("private/bufpkg/bufanalysis")
+	if pk == nil {
+		return
+	}
+	isPos := func(cc *ssa.CallCommon) string {
+		if cc.IsInvoke() {
+			switch cc.Method.Name() {
+			case "StartLine", "StartColumn", "EndLine", "EndColumn":
+				return cc.Method.Name()
+			}
+		}
+		return ""
+	}
+	var mixed []string
+	n := 0
+	for _, sf := range p.SSAFuncsOf([]*packages.Package{pk}) {
+		for _, f := range allSSAFuncs(sf) {
+			for _, call := range callsIn(f) {
+				bi, ok := call.Call.Value.(*ssa.Builtin)
+				if !ok || (bi.Name() != "max" && bi.Name() != "min") {
+					continue
+				}
+				comps := map[string]bool{}
+				for _, a := range call.Call.Args {
+					sliceBack(a, func(x ssa.Value) bool {
+						if cl, ok := x.(*ssa.Call); ok {
+							if nm := isPos(&cl.Call); nm != "" {
+								comps[nm] = true
+							}
+						}
+						return true
+					})
+				}
+				if len(comps) > 0 {
+					n++
+				}
+				if len(comps) > 1 {
+					mixed = append(mixed, ssaFuncName(f)+": "+strings.Join(sortedKeys(comps), "+"))
+				}
+			}
+		}
+	}
+	c.Ob(rule, "bufanalysis/components-independent", token.NoPos, len(mixed) == 0, true, "no min/max relates two position components (%d min/max calls over positions): %v", n, mixed)
+}
